@@ -38,7 +38,12 @@ fn run(prop: &str, tier: &str) -> i32 {
     let mut skipped: Vec<String> = vec![];
     let mut jobs: Vec<(&Listing, usize)> = vec![];
     for l in &ls {
-        for &n in &ns {
+        let mut mine = ns.clone();
+        if thorough && l.key_field == Some("id") {
+            // proposal ids beyond one byte: the order of multi-byte (big-endian) integer keys
+            mine.push(260);
+        }
+        for &n in &mine {
             if n < l.min_n {
                 skipped.push(format!("{}/n={} (the contract refuses to be instantiated with no voters)", l.name, n));
             } else {
@@ -120,8 +125,9 @@ fn run(prop: &str, tier: &str) -> i32 {
     rep.alphabet = "pager states (listing, store of n items, limit, cursor): 21 listing variants (cw20-base AllAccounts / AllAllowances / AllSpenderAllowances; cw1-subkeys AllAllowances with six expiry patterns × query blocks, AllPermissions; cw3-fixed and cw3-flex ListProposals / ReverseProposals / ListVotes / ListVoters; cw4-group and cw4-stake ListMembers; cw20-ics20 ListAllowed); limits {absent, 0, 1, 2, 9, 10, 11, 29, 30, 31, 32, 100, 2^32-1}; cursors: none, every stored key as start_after / start_before (for the filtered listing also the keys of expired entries), and the walk from the beginning with the last returned key as next cursor until an empty page".into();
     rep.oracle = "expected listing = the constructed key set sorted by key bytes (numerically for proposal ids, descending for ReverseProposals), each key confirmed by the contract's point query (Balance, Allowance, Permissions, Proposal, Vote, Voter, Member, Allowed); every page must be the run of the next min(limit or 10, 30) expected entries after the cursor (fewer only at the end), each entry equal to the point query's answer; no page exceeds the requested limit, 30, or 10 without a limit; the page without a limit equals the page with limit 10; limit 0 gives an empty page; for every limit >= 1 the walk until an empty page returns every current item exactly once in order and terminates".into();
     rep.bounds = format!(
-        "complete enumeration of sizes {:?} × 13 limits × (n+1) cursors + 13 walks per (listing, size); stores contain noise entries in neighbouring prefixes/namespaces",
-        ns
+        "complete enumeration of sizes {:?} × 13 limits × (n+1) cursors + 13 walks per (listing, size){}; stores contain noise entries in neighbouring prefixes/namespaces",
+        ns,
+        if thorough { "; proposal listings additionally with 260 proposals" } else { "" }
     );
     rep.assumptions = vec![
         "stores are built through the real instantiate/execute entry points; keys are MockApi bech32 addresses (order = byte order of the address strings) or proposal ids".into(),
